@@ -7,10 +7,12 @@ The harnesses #include "C16_bounds.inc"; nothing is measured or adapted at run t
 
 One-off derivation (documented here so that the numbers in cmath_bounds.json can be traced; NOT part of any check):
 
-    gen/C16_bounds.py --derive <files with MEASURE-MAX lines ...> --json-out cmath_bounds.json
+    gen/C16_bounds.py --derive <files with MEASURE-MAX lines ...> --json-out cmath_bounds.json --tree "<tree / commit>"
 
-where the files are the stdout of the C16_approx / C16_complex_misc harnesses built against the pinned tree and run
-with C16_MEASURE=1 (thorough tier, several seeds, known-finding classes excluded).  Rule (DESIGN.md section 3 / C16):
+where the files are the stdout of the C16_approx / C16_complex_misc harnesses built against the tree named by --tree
+and run with C16_MEASURE=1 (the quick tier exactly as bin/check launches it for VERIF_SEED 1..6, plus one thorough-size
+pass).  The table was first derived from the pinned tree and re-derived ONCE from the repaired tree after the C16 fix:
+commits (the run-time paths of the gcem functions became libm calls, which made the first table far too loose).  Rule (DESIGN.md section 3 / C16):
 bound = max(4, ceil(8 x largest observed error in ulps)).
 """
 import json
@@ -43,7 +45,7 @@ COMPLEX_DOMAIN = "|re|, |im| <= 8: grid with step 1/4, uniform random points, co
 FLOORS = {"lgamma": 1.0, "complex.log": 0.0078125, "complex.log10": 0.0078125}
 
 
-def derive(files, out):
+def derive(files, out, tree):
     mx = {}
     for fn in files:
         with open(fn, errors="replace") as f:
@@ -65,13 +67,16 @@ def derive(files, out):
         e[ty] = {"observed_max_ulp": round(u, 3), "argmax": arg, "samples": n, "bound_ulp": float(max(4, math.ceil(8 * u)))}
     doc = {
         "_doc": "FIXED per-function error bounds of property C16 (ulps of the glibc result; complex functions norm-wise). "
-                "Derived ONCE from the pinned tree: bound = max(4, ceil(8 x largest error observed on the stated domain)); "
-                "arguments inside a known-finding class (wrong by class, or >= 1e-3 relative) were excluded from the "
-                "measurement and are findings, not bounds. Never recomputed at run time: gen/C16_bounds.py only copies the "
-                "bound_ulp / abs_floor numbers into the generated header the harnesses compile against.",
-        "derived_from": {"tree": "/repo include/ at 82c068b (pinned; none of the C16 patches applied)", "libm": "glibc 2.36 (x86-64)",
+                "bound = max(4, ceil(8 x largest error observed on the stated domain)); abs_floor > 0 where the function "
+                "has a zero (error in ulps of max(|result|, abs_floor)). Never recomputed at run time: gen/C16_bounds.py "
+                "only copies the bound_ulp / abs_floor numbers into the generated header the harnesses compile against.",
+        "derived_from": {"tree": tree, "libm": "glibc 2.36 (x86-64)",
                          "compiler": "g++ 12.2 -std=c++20 -O1 (ASan+UBSan harness build)",
-                         "sampling": "thorough tier of C16_approx / C16_complex_misc, VERIF_SEED 1, 2, 3, all 16 shards, C16_MEASURE=1"},
+                         "sampling": "C16_approx / C16_complex_misc with C16_MEASURE=1: quick tier exactly as bin/check launches it "
+                                     "(4 resp. 3 shards, seeds VERIF_SEED*1000+i) for VERIF_SEED 1..6, plus one thorough-size pass "
+                                     "(16 shards, seed 11): 4*10^6 samples per real function and type, 2*10^6 complex points per type",
+                         "history": "first derived from the pinned tree at 82c068b (gcem run-time paths, known-finding classes excluded); "
+                                    "re-derived once from the repaired tree after patch 24 and C16-41..51 were committed"},
         "functions": funcs,
     }
     with open(out, "w") as f:
@@ -133,7 +138,11 @@ def main():
         if "--json-out" in a:
             out = a[a.index("--json-out") + 1]
             files = [x for x in files if x != out]
-        derive(files, out)
+        tree = "unspecified"
+        if "--tree" in a:
+            tree = a[a.index("--tree") + 1]
+            files = [x for x in files if x != tree]
+        derive(files, out, tree)
         return 0
     if "--out" not in a:
         print(__doc__)
